@@ -167,5 +167,12 @@ let () =
       let flav = flavour_of il in
       if flav <> "cur" && flav <> "rfc" then print_endline ("badflavour:" ^ flav) else
       print_endline (try run_pppoe rep { vrep = true; vrfc = (flav = "rfc") } flav rest with e -> "modelerr:" ^ Printexc.to_string e)
+    | ["radius"; fb; srv; at] ->
+      let fb = (fb = "1") in
+      let srv = (match srv with "accept" -> SrvAccept | "reject" -> SrvReject | "other" -> SrvOtherCode | _ -> SrvNoAnswer) in
+      let topic = (match at with "ipoe" -> "osvbng:events:aaa:response:ipoe" | "pppoe" -> "osvbng:events:aaa:response:pppoe"
+                               | "l2tp" -> "osvbng:events:aaa:response:l2tp" | _ -> "?") in
+      Printf.printf "%s %s %s ids=ok %s\n" topic (if aaa_allowed fb srv then "allow" else "deny")
+        (match radius_decide fb srv with VError -> "1" | _ -> "0") (if fb then "asked0" else "asked1")
     | "ipoe" :: rest -> print_endline (try run_ipoe rep rest with e -> "modelerr:" ^ Printexc.to_string e)
     | _ -> print_endline "badline") lines
